@@ -207,7 +207,7 @@ func c09Routes() []routeCase {
 func runC09(tier string, _ []string) int {
 	c := vlib.NewCtx("C09", tier, "exploration")
 	vlib.SetPortBlock(9)
-	c.SetRule("part A: an instance configured with an auth token; methods x node routes (/v1/nodes, /:id, /points, /samples, /parents, /not, unknown; path-cleaning variants) x 35 Authorization values (absent, empty, the token and near misses, Bearer variants, the instance's JWT, JWTs minted with the instance key read from the store file: other key, empty key, HS384, HS512, none, expired, payload-tampered, truncated, unsigned, garbage, bad signatures combined with future iat / nbf / missing exp; plus a token used while valid and again after its expiry) x bodies; then all credentials at once from 12 goroutines (each answer must be the one its own credential deserves); each probe targets a fresh id and an existing node; monitor: status 401 for every non-credential, no bus message mentioning the probe id on a '>' tap, tree dump unchanged; credentials must be served; NATS TCP and WebSocket connects without / with a wrong token must fail. part A2: the same forged-token probes (tokens signed with an empty / zero key) against an instance restarted on a store whose first start was killed just before the signing key was written (real crash of a writer process at the sqlite.initJwtKey.beforeWrite site). part B: user placements (created, moved, mirrored, deleted, re-added, under a deleted group, two users with one e-mail, wrong password) vs /v1/auth, asked after every single step of a scenario and at its end: token issued exactly when the model finds a live path to the root; the node listing for the issued token is a subset of the subtrees of the user's live placements. distinct = (credential, route kind, outcome) / (placement scenario, model verdict)")
+	c.SetRule("part A: an instance configured with an auth token; methods x node routes (/v1/nodes, /:id, /points, /samples, /parents, /not, unknown; path-cleaning variants) x 35 Authorization values (absent, empty, the token and near misses, Bearer variants, the instance's JWT, JWTs minted with the instance key read from the store file: other key, empty key, HS384, HS512, none, expired, payload-tampered, truncated, unsigned, garbage, bad signatures combined with future iat / nbf / missing exp; plus a token used while valid and again after its expiry) x bodies; then all credentials at once from 12 goroutines (each answer must be the one its own credential deserves); each probe targets a fresh id and an existing node; monitor: status 401 for every non-credential, no bus message mentioning the probe id on a '>' tap, tree dump unchanged; credentials must be served; NATS TCP and WebSocket connects without / with a wrong token must fail. part A2: the same forged-token probes (tokens signed with an empty / zero key) against an instance restarted on a store whose first start was killed just before the signing key was written (real crash of a writer process at the sqlite.initJwtKey.beforeWrite site). part B: user placements (created, moved, mirrored, deleted, re-added, under a deleted group, two users with one e-mail, wrong password) vs /v1/auth, asked after every single step of a scenario and at its end: token issued exactly when the model finds a live path to the root; the node listing for the issued token is a subset of the subtrees of the user's live placements; every login is accompanied by 27 probes that pair one half of the real credential with a text no user has (query-language and pattern shapes, case and whitespace variants) and must be refused; a third of the addresses contain an apostrophe. distinct = (credential, route kind, outcome) / (placement scenario, model verdict)")
 	c.Assume("'open' header forms (whitespace around the token, lower-case scheme) are only required to leave no trace if answered 401")
 	cl := &http.Client{Timeout: 30 * time.Second}
 
@@ -638,6 +638,9 @@ func runC09(tier string, _ []string) int {
 		}
 		for si, sc := range scen {
 			email := fmt.Sprintf("u%d-%d@x.io", bi, si)
+			if si%3 == 1 {
+				email = "o'" + email // an apostrophe is a legal character of an address
+			}
 			pass := "pw" + r.Ident(4)
 			tryPass := pass
 			g1, _ := d.create(in.RootID, "group", false)
@@ -778,6 +781,35 @@ func runC09(tier string, _ []string) int {
 			}
 			c.Distinct(fmt.Sprintf("login %s allowed=%v", sc, want))
 			c.Count("login_verdicts", 1)
+			// e-mails and passwords no user has, shaped like what a query language, a pattern match or a careless
+			// comparison might take for a match, together with the other half of a real credential
+			{
+				hostile := []string{"' OR '1'='1", "' OR 1=1 --", "\" OR \"\"=\"", "%", "_", "*", "", email + "' --", email + " ", " " + email, strings.ToUpper(email), email + "\x00", "%" + email[1:], email + "%"}
+				for _, h := range hostile {
+					for _, probe := range [][2]string{{h, tryPass}, {email, h}} {
+						if (probe[0] == email && probe[1] == tryPass) || (h == "" && probe[0] == email) {
+							continue
+						}
+						known := false
+						for _, ur := range users {
+							if ur.email == probe[0] && ur.pass == probe[1] {
+								known = true
+							}
+						}
+						if known {
+							continue
+						}
+						st2, tok2, err := login(cl, base, probe[0], probe[1])
+						c.Eval(1)
+						if err == nil && st2 == 200 && tok2 != "" {
+							wit["probe_email"], wit["probe_password"] = probe[0], probe[1]
+							c.Violate("auth:token-issued-for-text-that-is-not-the-credential", fmt.Sprintf("a token was issued for e-mail %q / password %q, which no user has", probe[0], probe[1]), wit)
+							return
+						}
+					}
+				}
+				c.Count("hostile_login_probes", 1)
+			}
 			if decoys[email] {
 				for _, probe := range [][2]string{{email, "decoy-" + pass}, {"decoy-" + email, pass}, {"decoy-" + email, "decoy-" + pass}} {
 					st2, tok2, err := login(cl, base, probe[0], probe[1])
